@@ -271,7 +271,27 @@ fn part_a(report: &Report, tier: Tier) {
     let max_p = all_rects().map(|r| r.0).max().unwrap();
     let max_t = all_rects().map(|r| r.1).max().unwrap();
     let patterns = all_strings(max_p); // length-then-lexicographic, simplest first
-    let texts = all_strings(max_t);
+    let mut texts = all_strings(max_t);
+    // matching is case-insensitive: every text one symbol shorter than the bound also with the case of
+    // its letters swapped (a -> A, B -> b, é -> É), against the same patterns
+    let swapped: Vec<String> = all_strings(max_t.saturating_sub(1))
+        .iter()
+        .map(|t| {
+            t.chars()
+                .map(|c| match c {
+                    'a' => 'A',
+                    'B' => 'b',
+                    'é' => 'É',
+                    c => c,
+                })
+                .collect::<String>()
+        })
+        .collect();
+    for s in swapped {
+        if !texts.contains(&s) {
+            texts.push(s);
+        }
+    }
     let folded: Vec<Vec<char>> = patterns.iter().map(|p| pm::fold(p)).collect();
     let conds: Vec<[PushCondition; 2]> =
         patterns.iter().map(|p| [mk_cond(Mode::Word, p), mk_cond(Mode::Whole, p)]).collect();
@@ -1531,7 +1551,7 @@ fn main() {
     let report = Report::new("C12", "model_checking", &args);
     let b = glob_bounds(args.tier);
     report.set_rule(&format!(
-        "product explorer, four parts. A: all (pattern, text) pairs over the 9-symbol alphabet \
+        "product explorer, four parts. A: all (pattern, text) pairs over the 9-symbol alphabet (texts one symbol below the bound also with swapped letter case) \
          {{a B _ - space \\n é * ?}} in the rectangles (pattern length <= p, text length <= t) = {:?} for patterns \
          containing a wildcard and {:?} for literal patterns x \
          {{EventMatch on content.body (word mode), EventMatch on content.k (whole mode), ContainsDisplayName, \
